@@ -18,12 +18,12 @@ BOUNDS = ("One call from an arbitrary pre-state; on every path where the call ra
           "feed, power, tool/coolant/halt status and modes, tool number, remembered parameters, "
           "target temperatures, units, plane, resolution) is unchanged. Cell grid: 96 call shapes "
           "x bounds table {none, all seven properties set} x machine state {idle, tool+coolant "
-          "running}. Solver over: arguments (reals, NaN, +-inf), integer arguments, pre-state "
+          "running} x {G90, G91, G91 with a pause pending} (quick: the last two for the idle machine only). Solver over: arguments (reals, NaN, +-inf), integer arguments, pre-state "
           "feed/power/x-coordinate, and the feed-rate, tool-power and temperature ranges "
           "(any min<max; the three temperature ranges are shifted copies of one symbolic range so "
           "that they differ); axes box fixed to [0,10]^3, tool-number range to [1,9].")
 ASSUMPTIONS = [
-    "pre-state values are finite and non-negative where the API requires it",
+    "pre-state values are finite and non-negative where the API requires it; the current position may lie outside the axes box (bounds set after the move)",
     "axes box and tool-number range are concrete ([0,10]^3, [1,9]); the other five ranges symbolic",
 ]
 
@@ -44,7 +44,7 @@ def classify(e) -> str:
     return f"other-{name}"
 
 
-def _make(step, tool, coolant, bmode):
+def _make(step, tool, coolant, bmode, relative=False, halt=None):
     def core(f, n, px, feed, power, flo, fhi, plo, phi, tlo, thi):
         assume(feed >= 0)
         assume(power >= 0)
@@ -56,13 +56,13 @@ def _make(step, tool, coolant, bmode):
             assume(flo < fhi)
             assume(plo < phi)
             assume(tlo < thi)
-            assume(px >= 0)
-            assume(px <= 10)
+            # px is NOT assumed to lie inside the axes box: set_bounds() after a move can leave the
+            # current position outside it
             bounds = {"feed-rate": (flo, fhi), "tool-power": (plo, phi),
                       "bed-temperature": (tlo, thi), "hotend-temperature": (tlo + 1000, thi + 1000),
                       "chamber-temperature": (tlo - 1000, thi - 1000), "tool-number": (1, 9),
                       "axes": ((0.0, 0.0, 0.0), (10.0, 10.0, 10.0))}
-        pre = mkpre(pos=(px, 2.0, 3.0), tool=tool, coolant=coolant, feed=feed,
+        pre = mkpre(pos=(px, 2.0, 3.0), tool=tool, coolant=coolant, feed=feed, relative=relative, halt=halt,
                     power=power if tool else 0, bounds=bounds)
         g, rec = prepare(pre)
         before = snapshot(g)
@@ -125,6 +125,15 @@ def cells(tier):
             for bmode in ("none", "all"):
                 name = f"{step.name}|tool={tool_label(tool)}|coolant={coolant or 'off'}|bounds={bmode}"
                 out.append(Cell(name, _make(step, tool, coolant, bmode),
+                                budget_s=120 if tier == "quick" else 400,
+                                entry=f"GCodeBuilder.{step.name.split(':')[0].split('(')[0]}"))
+                if (tool, coolant) != states[0] and tier == "quick":
+                    continue
+                out.append(Cell(name + "|G91", _make(step, tool, coolant, bmode, relative=True),
+                                budget_s=120 if tier == "quick" else 400,
+                                entry=f"GCodeBuilder.{step.name.split(':')[0].split('(')[0]}"))
+                out.append(Cell(name + "|G91|halt-pending",
+                                _make(step, tool, coolant, bmode, relative=True, halt="pause"),
                                 budget_s=120 if tier == "quick" else 400,
                                 entry=f"GCodeBuilder.{step.name.split(':')[0].split('(')[0]}"))
     return out
